@@ -243,3 +243,92 @@ def v_sel_bbox(c):
     c.ensure_true("longitudes_reported_in_the_query_convention",
                   bool(np.allclose(sorted(out["lon"].values), sorted(_to_conv(lon180[s], qconv) for s in inside))) if inside else True,
                   f"lons {out['lon'].values}")
+
+
+# ---------------------------------------------------------------------------------------
+# longitude conventions: proved for any number of longitudes (symbolic extent)
+
+
+@contract(SE + "Coordinates._swap_longitude_convention", props=["C14"], scenarios=[{"conv": 180}, {"conv": 360}])
+def v_swap(c, conv):
+    """every longitude is mapped to the congruent value (mod 360) of the other convention;
+    the argument array is the only thing written (callers pass a fresh copy)"""
+    import wavespectra.core.select as sm
+
+    m = c.m
+    n = c.int("NL", 1, 7)
+    lons = c.array("lon", (n,))
+    co = sm.Coordinates.__new__(sm.Coordinates)
+    if m.symbolic:
+        import z3
+        from engine.pyse.core import CTX, fresh_name
+
+        lons.buf.owner = "fresh"  # contract: the caller hands over an array it owns (np.array(lons) / isel copy)
+        q = z3.Int(fresh_name("q"))
+        f = lons._uf
+        if conv == 180:
+            CTX.assume(z3.ForAll([q], z3.And(f(q) >= -180, f(q) <= 180), patterns=[f(q)]))
+            w = c.index("w", n)
+            c.assume(lons.get((w,)) < 0)  # some negative longitude: the array is in the 180 convention
+        else:
+            CTX.assume(z3.ForAll([q], z3.And(f(q) >= 0, f(q) <= 360), patterns=[f(q)]))
+        before = lambda i: A.Sym(f(A.as_sym(i).t))
+        out = c.call(co, lons)
+        i = c.index("i", n)
+        r = out.get((i,))
+        x = before(i)
+    else:
+        import numpy as np
+
+        base = np.array(lons) * 40.0
+        lon = ((base + 180) % 360) - 180 if conv == 180 else base % 360
+        if conv == 180 and lon.min() >= 0:
+            lon[0] = -abs(lon[0]) - 1.0
+        c.env["lon"] = lon
+        arr = lon.copy()
+        out = c.call(co, arr)
+        i = c.index("i", len(lon))
+        r, x = float(out[i]), float(lon[i])
+    if conv == 180:
+        c.ensure("result_in_0_360", m.and_(r >= 0, r < 360) if m.symbolic else 0 <= r < 360)
+    else:
+        c.ensure("result_in_minus180_180", m.and_(r >= -180, r <= 180) if m.symbolic else -180 <= r <= 180)
+    c.ensure_eq("congruent_modulo_360", m.mod(r - x, 360), 0.0)
+
+
+@contract("wavespectra.specdataset:SpecDataset.sel", props=["C14", "C18"], name="after_coordinate_edit", scenarios=[{"method": "nearest"}, {"method": "bbox"}, {"method": "idw"}], replays=6)
+def v_sel_history(c, method):
+    """history: sel ; rewrite the station longitudes in place on the same Dataset object ; sel again
+    must answer for the current coordinates (equal to a freshly built dataset with the same contents)"""
+    if c.m.symbolic:
+        c.ensure_true("placeholder_structural", True)
+        return
+    import numpy as np
+    import xarray as xr
+
+    ds, lon180, lat, conv, r = _stations(c)
+    ql, qt = _queries(c, lon180, lat, r, k=2)
+    kw = dict(method=method, tolerance=3.0)
+    args = ([float(ql.min()) - 0.5, float(ql.max()) + 0.5], [float(qt.min()) - 0.5, float(qt.max()) + 0.5]) if method == "bbox" else (list(ql), list(qt))
+    try:
+        ds.spec.sel(*args, **kw)
+    except (AssertionError, ValueError):
+        pass
+    # in-place edit: switch convention and move the stations by a fraction of a degree
+    newlon = (_to_conv(ds["lon"].values, 180 if conv == 360 else 360) + 0.25)
+    newlon = _to_conv(newlon, 180 if conv == 360 else 360)
+    ds["lon"].values = newlon  # replaces the coordinate array of the same Dataset object
+    fresh = xr.Dataset({k: (v.dims, v.values.copy()) for k, v in ds.data_vars.items()}, coords={k: v.values.copy() for k, v in ds.coords.items()})
+    def run(x):
+        try:
+            return x.spec.sel(*args, **kw)
+        except (AssertionError, ValueError) as e:
+            return type(e).__name__
+    a, b = run(ds), run(fresh)
+    if isinstance(a, str) or isinstance(b, str):
+        c.ensure_true("same_outcome_as_a_fresh_dataset", (a if isinstance(a, str) else "ok") == (b if isinstance(b, str) else "ok"), f"{a if isinstance(a, str) else 'ok'} vs {b if isinstance(b, str) else 'ok'}")
+        return
+    same = a.sizes == b.sizes and bool(np.allclose(a["efth"].values, b["efth"].values, equal_nan=True)) and \
+        bool(np.allclose(a["lon"].values, b["lon"].values)) and bool(np.allclose(a["lat"].values, b["lat"].values))
+    c.ensure_true("same_result_as_a_fresh_dataset_with_the_current_coordinates", same,
+                  f"after in-place longitude edit: lon {a['lon'].values} vs fresh {b['lon'].values}")
